@@ -180,8 +180,18 @@ def rule_m1(ck, prog):
             try:
                 got = {b for b in byte_set(c, key, prog)}
                 # the true edge is the refusing one (`!isdigit`)
-                refuse_on_true = tests[0].succs[0] is not None and any(C.store_target(e) is not None and C.const_of(e.child(1)) == 0
-                                                                       for e in tests[0].succs[0].elems if e.k == "BinaryOperator")
+                def refuses(blk):
+                    if blk is None:
+                        return False
+                    for e in blk.elems:
+                        if e.k == "BinaryOperator" and C.store_target(e) is not None and C.const_of(e.child(1)) == 0:
+                            return True
+                        if e.k == "ReturnStmt" and e.ch and C.const_of(e.child(0)) == 0:
+                            return True
+                    return False
+                refuse_on_true = refuses(tests[0].succs[0])
+                if not refuse_on_true and not refuses(tests[0].succs[1] if len(tests[0].succs) > 1 else None):
+                    raise CS.CannotEvaluate("neither edge of the digit test refuses")
                 acc = (set(range(256)) - got) if refuse_on_true else got
                 acc &= set(range(128))
                 if acc == DIGITS:
@@ -273,6 +283,34 @@ def rule_m2(ck, prog):
         ck.holds("C03-M2", st, K.loc(f), "%d paths: long || short; '#' keywords through compareStrAndNum without the '#'" % len(sums))
 
 
+def ci_equal(ps):
+    """truth of 'the case-insensitive comparison found the strings equal' on this path (None if not evaluated)"""
+    out = None
+    for a, pol in ps.facts:
+        if isinstance(pol, tuple):
+            continue
+        s_ = a.strip_all_casts()
+        if s_.k == "CallExpr" and s_.get("callee") in CI:
+            out = not pol                    # bare call used as condition: non-zero means different
+        elif s_.k == "BinaryOperator" and s_.get("op") in ("==", "!=") and C.const_of(s_.child(1)) == 0:
+            c = s_.child(0).strip_all_casts()
+            if c.k == "CallExpr" and c.get("callee") in CI:
+                out = pol if s_["op"] == "==" else not pol
+    return out
+
+
+def eq_truth(ps, names):
+    """truth of `a == b` for the two paths in `names` on this path, from == / != atoms"""
+    out = None
+    for a, pol in ps.facts:
+        if isinstance(pol, tuple):
+            continue
+        if a.k == "BinaryOperator" and a.get("op") in ("==", "!=") and \
+                {a.child(0).strip_all_casts().get("path"), a.child(1).strip_all_casts().get("path")} == set(names):
+            out = pol if a["op"] == "==" else not pol
+    return out
+
+
 def rule_m3(ck, prog):
     g = prog.fn("compareStr")
     f = prog.fn("compareStrAndNum")
@@ -292,17 +330,16 @@ def rule_m3(ck, prog):
             if not isinstance(pol, tuple) and a.k == "BinaryOperator" and a.get("op") in ("!=", "==") and \
                     {a.child(0).strip_all_casts().get("path"), a.child(1).strip_all_casts().get("path")} == {l1, l2}:
                 differ = pol if a["op"] == "!=" else not pol
-        ci = [(a, pol) for a, pol in ps.facts if not isinstance(pol, tuple) and a.k == "BinaryOperator" and a.get("op") == "==" and
-              a.child(0).strip_all_casts().k == "CallExpr" and a.child(0).strip_all_casts().get("callee") in CI and C.const_of(a.child(1)) == 0]
+        cie = ci_equal(ps)
         t = ps.ret.truth() if ps.ret is not None else None
         if differ is None:
             probs.append("a path does not compare the lengths")
         elif differ and t is not False:
             probs.append("different lengths are not refused")
         elif not differ:
-            if not ci:
+            if cie is None:
                 probs.append("equal lengths: no case-insensitive comparison")
-            elif t is not bool(ci[-1][1]):
+            elif t is not cie:
                 probs.append("the result is not the outcome of the comparison")
     if probs:
         ck.violated("C03-M3", st, K.loc(g), sorted(set(probs))[0])
@@ -320,14 +357,24 @@ def rule_m3(ck, prog):
                 if not isinstance(pol, tuple) and pred(a):
                     out = pol
             return out
-        shorter = fact(lambda a: a.k == "BinaryOperator" and a.get("op") == "<" and a.child(0).strip_all_casts().get("path") == n2
-                       and a.child(1).strip_all_casts().get("path") == n1)
-        pre = fact(lambda a: a.k == "BinaryOperator" and a.get("op") == "==" and a.child(0).strip_all_casts().k == "CallExpr"
-                   and a.child(0).strip_all_casts().get("callee") in CI and C.const_of(a.child(1)) == 0)
+        shorter = None
+        for a, pol in ps.facts:
+            if isinstance(pol, tuple) or a.k != "BinaryOperator" or a.get("op") not in ("<", ">", "<=", ">="):
+                continue
+            l_, r_ = a.child(0).strip_all_casts().get("path"), a.child(1).strip_all_casts().get("path")
+            if (l_, r_) == (n2, n1):
+                shorter = {"<": pol, ">=": not pol}.get(a["op"], shorter)
+            elif (l_, r_) == (n1, n2):
+                shorter = {">": pol, "<=": not pol}.get(a["op"], shorter)
+        pre = ci_equal(ps)
         hasnum = fact(lambda a: a.get("path") == num)
-        same = fact(lambda a: a.k == "BinaryOperator" and a.get("op") == "==" and {a.child(0).strip_all_casts().get("path"),
-                                                                                   a.child(1).strip_all_casts().get("path")} == {n1, n2})
-        allused = fact(lambda a: a.k == "BinaryOperator" and a.get("op") == "!=" and a.child(1).strip_all_casts().get("path") == n2)
+        same = eq_truth(ps, (n1, n2))
+        allused = None          # truth of `consumed length != keyword end`
+        for a, pol in ps.facts:
+            if not isinstance(pol, tuple) and a.k == "BinaryOperator" and a.get("op") in ("!=", "==") and \
+                    n2 in (a.child(0).strip_all_casts().get("path"), a.child(1).strip_all_casts().get("path")) and \
+                    n1 not in (a.child(0).strip_all_casts().get("path"), a.child(1).strip_all_casts().get("path")):
+                allused = pol if a["op"] == "!=" else not pol
         conv = [c for c in ps.calls if (c.get("callee") or "").startswith("strBaseTo")]
         stores = [e[1] for e in ps.events if e[0] == "store" and (C.store_target(e[1]).get("path") or "") == "*" + num]
         t = ps.ret.truth() if ps.ret is not None else None
@@ -455,6 +502,56 @@ def rule_m4(ck, prog, S):
         ck.violated("C03-M4", st, K.loc(f), "leading colon handling: ':*...' refused: %s; single ':' skipped before matching: %s" % (star_refused, skip))
 
 
+def capacity_guard(f, S, numbers, idxvar, nlen):
+    """returns (in_guard(node) -> bool, safe pointer variables): a node is 'in guard' when numbers != NULL && idx < capacity
+    holds there, either as branch facts or because the store goes through a pointer that is non-NULL only under that guard"""
+    def is_slot(e):
+        src = e.strip_all_casts().src.replace(" ", "")
+        return src in ("%s+%s" % (numbers, idxvar), "&%s[%s]" % (numbers, idxvar))
+
+    def cond_ok(pairs):
+        g1 = any(a.get("path") == numbers and pol is True for a, pol in pairs if not isinstance(pol, tuple))
+        g2 = any(a.k == "BinaryOperator" and a.get("op") == "<" and pol is True and a.child(0).strip_all_casts().get("path") == idxvar
+                 and a.child(1).strip_all_casts().get("path") == nlen for a, pol in pairs if not isinstance(pol, tuple))
+        return g1 and g2
+
+    def facts_ok(node):
+        return cond_ok(K.facts_at(S, f, node) or [])
+    safe = set()
+    cands = {t.get("path") for n, t in C.stores(f) if t.k == "DeclRefExpr" and t.get("tk") == "ptr"}
+    for v in cands:
+        good = True
+        some = False
+        for n, t in C.stores(f):
+            if t.get("path") != v or n.get("op") != "=":
+                continue
+            r = n.child(1).strip_all_casts()
+            if C.is_null(n.child(1)):
+                continue
+            if is_slot(n.child(1)) and facts_ok(n):
+                some = True
+                continue
+            if r.k == "ConditionalOperator" and C.is_null(r.child(2)) and is_slot(r.child(1)) and cond_ok(C.cond_facts(r.child(0), True)):
+                some = True
+                continue
+            good = False
+        if good and some:
+            safe.add(v)
+
+    def in_guard(node):
+        if facts_ok(node):
+            return True
+        t = C.store_target(node)
+        if t is not None and t.k == "UnaryOperator" and t.get("op") == "*":
+            pv = t.child(0).strip_all_casts().get("path")
+            if pv in safe:
+                facts = K.facts_at(S, f, node) or []
+                if any(a.get("path") == pv and pol is True for a, pol in facts if not isinstance(pol, tuple)):
+                    return True
+        return False
+    return in_guard, safe, is_slot
+
+
 def rule_m5_m6(ck, prog, S):
     f = prog.fn("matchCommand")
     if f is None:
@@ -526,6 +623,7 @@ def rule_m5_m6(ck, prog, S):
     else:
         probs = []
         incs = [n for n, t in C.stores(f) if t.get("path") == idxvar and n.k == "UnaryOperator" and n.get("op") == "++"]
+        in_guard, safe_ptrs, is_slot = capacity_guard(f, S, numbers, idxvar, nlen)
         for k, e in enumerate(true_edges):
             # must pass an increment of the index before the next advance of the pattern
             reach = pg.reachable([e.dst], blocked_edge=lambda x: x.kind == "elem" and x.node in incs)
@@ -536,11 +634,7 @@ def rule_m5_m6(ck, prog, S):
             ok = False
             for n, t in C.stores(f):
                 if n.get("op") == "=" and n.child(1).strip_all_casts().get("path") == dflt and pg.before(n) in reach2:
-                    facts = K.facts_at(S, f, n) or []
-                    g1 = any(a.get("path") == numbers and pol is True for a, pol in facts if not isinstance(pol, tuple))
-                    g2 = any(a.k == "BinaryOperator" and a.get("op") == "<" and pol is True and a.child(0).strip_all_casts().get("path") == idxvar
-                             and a.child(1).strip_all_casts().get("path") == nlen for a, pol in facts if not isinstance(pol, tuple))
-                    if g1 and g2:
+                    if in_guard(n):
                         ok = True
                     else:
                         ck.violated("C03-M6", K.site(f, "default-store-guard", k), K.loc(f, n),
@@ -554,27 +648,43 @@ def rule_m5_m6(ck, prog, S):
             ck.holds("C03-M5", st, K.loc(f), "%d '#' edges: default stored under %s && %s < %s, index advanced on every path"
                      % (len(true_edges), numbers, idxvar, nlen))
     # M6: who else stores through numbers / number_ptr
+    if idxvar is None:
+        return
+    in_guard, safe_ptrs, is_slot = capacity_guard(f, S, numbers, idxvar, nlen)
     st = K.site(f, "numbers-stores", 0)
     bad = []
     nst = 0
     for n, t in C.stores(f):
         p = t.get("path") or ""
-        if p.startswith("*number_ptr") or p.startswith(numbers + "["):
+        if (p.startswith("*") and t.k == "UnaryOperator" and t.child(0).strip_all_casts().get("tk") == "ptr" and
+                "int" in (t.get("ct") or "int") and t.child(0).strip_all_casts().get("path") not in (None,) and
+                t.child(0).strip_all_casts().get("decl", {}).get("kind") == "local") or p.startswith(numbers + "["):
             nst += 1
-            facts = K.facts_at(S, f, n) or []
-            g2 = any(a.k == "BinaryOperator" and a.get("op") == "<" and pol is True and a.child(0).strip_all_casts().get("path") == idxvar
-                     and a.child(1).strip_all_casts().get("path") == nlen for a, pol in facts if not isinstance(pol, tuple))
-            if not g2:
+            if not in_guard(n):
                 bad.append(n)
     # the pointer handed to matchPattern is either NULL or numbers + idx taken under the same guard
+    ptrvars = {t.get("path") for n, t in C.stores(f) if t.k == "DeclRefExpr" and t.get("tk") == "ptr" and
+               any(is_slot(x) for x in n.walk() if x.k in ("BinaryOperator", "UnaryOperator"))} if idxvar else set()
     for n, t in C.stores(f):
-        if t.get("path") == "number_ptr" and n.get("op") == "=" and not C.is_null(n.child(1)):
+        if t.get("path") in ptrvars and n.get("op") == "=" and not C.is_null(n.child(1)):
             nst += 1
-            facts = K.facts_at(S, f, n) or []
-            g2 = any(a.k == "BinaryOperator" and a.get("op") == "<" and pol is True and a.child(0).strip_all_casts().get("path") == idxvar
-                     and a.child(1).strip_all_casts().get("path") == nlen for a, pol in facts if not isinstance(pol, tuple))
-            if not g2 or n.child(1).strip_all_casts().src.replace(" ", "") not in ("%s+%s" % (numbers, idxvar), "&%s[%s]" % (numbers, idxvar)):
+            if t.get("path") not in safe_ptrs:
                 bad.append(n)
+    # the destination handed to matchPattern is decided afresh for every keyword (NULL or the keyword's own slot)
+    mp = list(f.calls("matchPattern"))
+    dest = None
+    if mp and len(C.call_args(mp[0])) >= 5:
+        dest = C.call_args(mp[0])[4].strip_all_casts().get("path")
+    if dest and dest != numbers:
+        dst_stores = [n for n, t in C.stores(f) if t.get("path") == dest]
+        r_ = pg.reachable([pg.after(seps[0])], blocked_edge=lambda e: e.kind == "elem" and e.node in dst_stores)
+        stt = K.site(f, "suffix-destination-per-keyword", 0)
+        if pg.before(mp[0]) in r_:
+            ck.violated("C03-M6", stt, K.loc(f, mp[0]),
+                        "`%s` can reach matchPattern without having been set for this keyword: it still points at the previous "
+                        "numeric-suffix keyword's slot, so a suffix beyond the capacity overwrites an earlier entry of numbers[]" % dest)
+        else:
+            ck.holds("C03-M6", stt, K.loc(f, mp[0]), "`%s` is assigned on every path from the keyword boundary to matchPattern" % dest)
     if nst == 0:
         ck.anchor_lost("C03-M6", "stores into numbers[] in matchCommand")
     elif bad:
